@@ -210,6 +210,10 @@ class AsyncPettingZooVecEnv(PettingZooVecEnv):
                 f"The call to `reset_wait` has timed out after {timeout} second(s)."
             )
 
+        # The pending call is consumed from here on, whatever happens below: a failure
+        # while receiving the replies must not leave the environment waiting for them
+        self._state = AsyncState.DEFAULT
+
         info_data, successes = zip(*[pipe.recv() for pipe in self.parent_pipes])
         self._raise_if_errors(successes)
 
@@ -274,6 +278,10 @@ class AsyncPettingZooVecEnv(PettingZooVecEnv):
             raise mp.TimeoutError(
                 f"The call to `step_wait` has timed out after {timeout} second(s)."
             )
+
+        # The pending call is consumed from here on, whatever happens below: a failure
+        # while receiving the replies must not leave the environment waiting for them
+        self._state = AsyncState.DEFAULT
 
         rewards, terminations, truncations, infos = (
             defaultdict(list) for _ in range(4)
@@ -371,6 +379,10 @@ class AsyncPettingZooVecEnv(PettingZooVecEnv):
                 f"The call to `call_wait` has timed out after {timeout} second(s)."
             )
 
+        # The pending call is consumed from here on, whatever happens below: a failure
+        # while receiving the replies must not leave the environment waiting for them
+        self._state = AsyncState.DEFAULT
+
         results, successes = zip(*[pipe.recv() for pipe in self.parent_pipes])
         self._raise_if_errors(successes)
         self._state = AsyncState.DEFAULT
@@ -439,19 +451,31 @@ class AsyncPettingZooVecEnv(PettingZooVecEnv):
                 function(timeout)
         except mp.TimeoutError:
             terminate = True
+        except (EOFError, OSError):
+            # A worker process died without replying, a graceful shutdown is impossible
+            terminate = True
+        except Exception as err:
+            # The pending call itself failed: the error has been reported (and the worker
+            # that raised it shut down) by `_raise_if_errors`, the others are closed below
+            logger.error(f"Pending call raised `{err!r}` while closing.")
+
+        if not terminate:
+            try:
+                for pipe in self.parent_pipes:
+                    if (pipe is not None) and (not pipe.closed):
+                        pipe.send(("close", None))
+
+                for pipe in self.parent_pipes:
+                    if (pipe is not None) and (not pipe.closed):
+                        pipe.recv()
+            except (EOFError, OSError):
+                # Broken pipe: a worker process is already dead, terminate the others
+                terminate = True
 
         if terminate:
             for process in self.processes:
                 if process.is_alive():
                     process.terminate()
-        else:
-            for pipe in self.parent_pipes:
-                if (pipe is not None) and (not pipe.closed):
-                    pipe.send(("close", None))
-
-            for pipe in self.parent_pipes:
-                if (pipe is not None) and (not pipe.closed):
-                    pipe.recv()
 
         for pipe in self.parent_pipes:
             if pipe is not None:
